@@ -28,6 +28,38 @@ def main():
         try:
             with open(j["fname"], "w", newline="", encoding="utf-8") as fh:
                 csv.writer(fh).writerows(j["rows"])
+            if j["how"] == "group":
+                # the job as a one-member named-paths group, always under the same group name, run by collect_paths on the shared instance:
+                # what the results manager holds for the group afterwards is this run and nothing else
+                if paths is None:
+                    paths = CsvPaths()
+                orig = getattr(paths, "_verif_orig", None) or paths.csvpath
+                paths._verif_orig = orig
+                made = []
+
+                def mk():
+                    c0 = orig()
+                    tp0 = TestPrinter()
+                    c0.add_printer(tp0)
+                    c0.config.csvpath_errors_policy = ["collect", "print"]
+                    made.append((c0, tp0))
+                    return c0
+                paths.csvpath = mk
+                fid = f"f{len(res)}"
+                paths.file_manager.add_named_file(name=fid, path=j["fname"])
+                paths.paths_manager.add_named_paths(name="g", paths=[j["text"].replace("$" + j["fname"], "$", 1)])
+                paths.collect_paths(pathsname="g", filename=fid)
+                rs = paths.results_manager.get_named_results("g")
+                c, tp = made[-1]
+                try:
+                    lines = [list(l) for l in rs[-1].lines.next()]
+                except Exception:  # noqa  (a run that collected nothing keeps no data file)
+                    lines = []
+                r.update({"lines": lines, "vars": json.loads(json.dumps(c.variables, sort_keys=True, default=str)), "printouts": list(tp.lines),
+                          "errors": sorted({e.line_count for e in (rs[-1].errors or [])}), "is_valid": bool(c.is_valid), "scan_count": int(c.scan_count),
+                          "match_count": int(c.match_count), "headers": list(c.headers or []), "stopped": bool(c.stopped), "n_results": len(rs)})
+                res.append(r)
+                continue
             if j["how"] == "direct":
                 c = CsvPath()
             else:
@@ -41,7 +73,7 @@ def main():
             lines = c.collect()
             r.update({"lines": [list(l) for l in lines], "vars": json.loads(json.dumps(c.variables, sort_keys=True, default=str)), "printouts": list(tp.lines),
                       "errors": sorted({e.line_count for e in (c.errors or [])}), "is_valid": bool(c.is_valid), "scan_count": int(c.scan_count),
-                      "match_count": int(c.match_count), "headers": list(c.headers or []), "stopped": bool(c.stopped)})
+                      "match_count": int(c.match_count), "headers": list(c.headers or []), "stopped": bool(c.stopped), "n_results": 1})
         except Exception as ex:  # noqa
             r["exc"] = type(ex).__name__ + ": " + str(ex)[:120]
         res.append(r)
